@@ -100,6 +100,35 @@ func sharedSet() (*yang.Modules, error) {
 	return ms, nil
 }
 
+// errSet: a processed set whose Process reported errors; its trees (with several errors recorded on single leaves)
+// are read concurrently like any other
+const errText = `module ee { namespace "urn:ee"; prefix ee;
+  leaf bad { type string { length "5..1"; } config maybe; mandatory perhaps; }
+  leaf bad2 { type int8 { range "1..500"; } config maybe; mandatory perhaps; default 3; }
+  container c { leaf bad3 { type string { length "9..1"; } config maybe; } }
+}`
+
+func errSet() *yang.Modules {
+	ms := yang.NewModules()
+	ms.Parse(errText, "ee.yang")
+	ms.Process()
+	return ms
+}
+
+// poisonText: a set whose type statement carries an extension with a prefix nobody imports (an error of its own);
+// processed in parallel with the ordinary private pipelines it must not change what they resolve
+const poisonText = `module pp { namespace "urn:pp"; prefix pp;
+  typedef tt { type string { pattern "a.*"; zz:note "x"; } }
+  leaf l { type string { pattern "a.*"; zz:note "y"; } }
+  leaf m { type tt { pattern "[0-9]+"; zz:other "z"; } }
+}`
+
+func poisonRun() {
+	ms := yang.NewModules()
+	ms.Parse(poisonText, "pp.yang")
+	ms.Process()
+}
+
 func pointKind(p string) (kind, ev string) {
 	switch p {
 	case "ns.enter":
@@ -453,6 +482,21 @@ func raceRun(body []byte) *core.Verdict {
 	var mu sync.Mutex
 	bad := ""
 	report := func(s string) { mu.Lock(); bad = s; mu.Unlock() }
+	es := errSet()
+	var errLeaves []*yang.Entry
+	if m := es.Modules["ee"]; m != nil {
+		ee := yang.ToEntry(m)
+		errLeaves = append(errLeaves, ee, ee.Dir["bad"], ee.Dir["bad2"], ee.Dir["c"])
+		if c := ee.Dir["c"]; c != nil {
+			errLeaves = append(errLeaves, c.Dir["bad3"])
+		}
+	}
+	seqErrs := []string{}
+	for _, l := range errLeaves {
+		if l != nil {
+			seqErrs = append(seqErrs, fmt.Sprint(l.GetErrors()))
+		}
+	}
 	subTrees := func() {
 		// the entry trees of the submodules themselves are part of the processed set
 		for _, sn := range []string{"s4", "s6a", "s6b"} {
@@ -488,6 +532,15 @@ func raceRun(body []byte) *core.Verdict {
 					if i == 0 {
 						subTrees()
 					}
+					k := 0
+					for _, l := range errLeaves { // error accessors on entries that carry several errors
+						if l != nil {
+							if got := fmt.Sprint(l.GetErrors()); got != seqErrs[k] {
+								report("GetErrors of " + l.Name + " differs under concurrency: " + got)
+							}
+							k++
+						}
+					}
 					p := paths[r.Intn(len(paths))]
 					if got := t2.Find(p); got != flat[p] {
 						report("Find(" + p + ") returned another node under concurrency")
@@ -510,6 +563,9 @@ func raceRun(body []byte) *core.Verdict {
 					e.Print(&sb)
 					subTrees()
 				case 1: // a pipeline on a private set
+					if i%3 == 1 {
+						poisonRun() // another private set, with errors of its own
+					}
 					own, err := sharedSet()
 					if err != nil {
 						report("private pipeline failed: " + err.Error())
